@@ -81,6 +81,49 @@ def run_case(c):
     return out
 
 
+def multi_case(c):
+    """several switched field detectors on the same region (a never-active one listed first): rows of each against the always-on one"""
+    oc, arrays, cfg, _ = build(c["spec"])
+    T = int(cfg.time_steps_total)
+    _, res = fdtdx.run_fdtd(arrays=arrays, objects=oc, config=cfg, key=KEY, show_progress=False)
+    full = np.asarray(res.detector_states["full"]["fields"])
+    out = {"T": T, "full_rows": int(full.shape[0]), "order": [d.name for d in oc.detectors], "dets": {}}
+    for d in oc.detectors:
+        if d.name == "full":
+            continue
+        g = np.asarray(res.detector_states[d.name]["fields"])
+        out["dets"][d.name] = {"on": [bool(b) for b in np.asarray(d._is_on_at_time_step_arr)], "rows": int(g.shape[0]),
+                               "match": [[t for t in range(full.shape[0]) if np.array_equal(full[t], g[i])] for i in range(g.shape[0])],
+                               "zero_rows": [bool(not np.any(g[i])) for i in range(g.shape[0])]}
+    return out
+
+
+def edit_case(c):
+    """the switch of a placed source is replaced (ObjectContainer.aset) and apply_params is called, as calculate_sparam does to silence the
+    non-input ports: afterwards the source must follow the schedule it now carries"""
+    oc, arrays, cfg, _ = build(c["spec"])
+    T = int(cfg.time_steps_total)
+    arrays = arrays.reset()
+    for name, sw in c["edits"].items():
+        idx = oc.index(name)
+        if sw.get("off"):
+            oc = oc.aset(f"object_list->[{idx}]->switch->is_always_off", True)
+        else:
+            oc = oc.aset(f"object_list->[{idx}]->switch", make_switch(sw, float(cfg.time_step_duration)))
+    arrays, oc, _ = fdtdx.apply_params(arrays, oc, {}, KEY)
+    srcs = sorted(oc.sources, key=lambda s_: int(s_.name[1:]))
+    out = {"T": T, "names": [s_.name for s_ in srcs], "inj": [[False] * T for _ in srcs]}
+    for t in range(T):
+        ts = jnp.asarray(t, dtype=jnp.int32)
+        E = np.asarray(update_E(ts, arrays, oc, cfg, True).fields.E)
+        H = np.asarray(update_H(ts, arrays, oc, cfg, True).fields.H)
+        for n, s_ in enumerate(srcs):
+            gs = s_.grid_slice
+            if np.abs(E[(slice(None),) + tuple(gs)]).max() > 0 or np.abs(H[(slice(None),) + tuple(gs)]).max() > 0:
+                out["inj"][n][t] = True
+    return out
+
+
 def gate_case(c):
     """zero fields: what update_E / update_H leave at each source's own cell is that source's injection"""
     oc, arrays, cfg, _ = build(c["spec"])
@@ -104,7 +147,7 @@ def main():
     outs = []
     for c in payload["cases"]:
         try:
-            outs.append(switch_case(c) if c["kind"] == "switch" else (gate_case(c) if c["kind"] == "gate" else run_case(c)))
+            outs.append(switch_case(c) if c["kind"] == "switch" else (gate_case(c) if c["kind"] == "gate" else (multi_case(c) if c["kind"] == "multi" else (edit_case(c) if c["kind"] == "edit" else run_case(c)))))
         except Exception as e:
             outs.append({"crash": type(e).__name__ + ": " + str(e)[:300]})
     emit({"outs": outs})
